@@ -46,6 +46,20 @@ async def scenario(loop, plan, r, out):
     stack = Stack(loop, V, window=plan.get("K", 1), fh=plan.get("fh"), fn=plan.get("fn"), fg=plan.get("fg")).install()
     out["stack"] = stack
     stack.line.merge_reads = bool(plan.get("merge"))
+    if plan.get("drop_rstack") is not None:
+        # the NCP's k-th RSTACK (0 = the one of the first handshake) never reaches the host
+        cnt = {"n": -1}
+        orig_n2h = stack.line.n2h.write
+
+        def rstack_eater(data):
+            if any(f.get("kind") == "RSTACK" for f in refash.split_wire(data)):
+                cnt["n"] += 1
+                if cnt["n"] == plan["drop_rstack"]:
+                    stack.line.n2h.hits.append((stack.line.n2h.n, "x", "RSTACK"))
+                    return
+            orig_n2h(data)
+
+        stack.line.n2h.write = rstack_eater
     if plan.get("lose"):
         idx, k = plan["lose"]
         st_ = {"n": -1, "target": None, "left": k}
@@ -393,6 +407,16 @@ def enum_plans(quick):
                         out.append(dict(p, probe=True))
     # the same host frame lost k times in a row (k <= 4: the fifth transmission gets through) - the link's retry budget
     # covers it, so bring-up must succeed; nothing else is wrong with the line
+    # the RSTACK answering the second reset is lost: the step fails (excused), a command issued right afterwards must not go
+    # out framed for the version negotiated before, and the retry on the then clean line must succeed
+    for v in ([4, 8, 14] if quick else VERSIONS):
+        for path in ("serial", "socket"):
+            for second in ("reset", "startup"):
+                p = {"v": v, "path": path, "second": second, "drop_rstack": 1}
+                if path == "socket":
+                    p["spont"] = "absent"
+                out.append(p)
+                out.append(dict(p, use=True))
     for v in ([4, 8, 13] if quick else VERSIONS):
         for tag_i in range(3):
             for k in ((2, 4) if quick else (1, 2, 3, 4)):
